@@ -407,6 +407,143 @@ def dispatcher(repo, rep):
             rep.ok("R-C12-3", f"{fi.file}:{node.lineno} read_dataset", f"{a} -> {target}", f"{target} renames {sorted(native)}")
 
 
+def ndbc_pairing(repo, rep):
+    """R-C12-6: first harmonic (r1) centred on the mean direction alpha1, second harmonic (r2, angle doubled) on the principal
+    direction alpha2 - NDBC's definition of the four directional parameters."""
+    rep.rule("R-C12-6", "NDBC directional reconstruction pairs r1 with mean_wave_dir (first harmonic) and r2 with principal_wave_dir (second "
+                        "harmonic, doubled angle), through the argument binding of the helper")
+    WANT = {1: ("wave_spectrum_r1", "mean_wave_dir"), 2: ("wave_spectrum_r2", "principal_wave_dir")}
+    fn = repo.func("wavespectra.input.ndbc.from_ndbc")
+    from ..astutil import bound_args, resolve
+    holder, binding = fn, {}
+    call = next((c for c in ast.walk(fn.node) if isinstance(c, ast.Call) and call_name(c).split(".")[-1] == "_construct_spectra"), None)
+    if call is not None:
+        holder = repo.func("wavespectra.input.ndbc._construct_spectra")
+        b = bound_args(repo, fn, call)
+        if b is None:
+            raise AnalysisError("from_ndbc: arguments of _construct_spectra not bound")
+        binding = b
+
+    def origin(e):
+        # -> the dataset variable name an operand comes from
+        if isinstance(e, ast.Name) and e.id in binding:
+            e = binding[e.id]
+        elif isinstance(e, ast.Name):
+            e = resolve(holder.node, e, before=10 ** 9) or e
+        names = [x.attr for x in ast.walk(e) if isinstance(x, ast.Attribute)] + [x.value for x in ast.walk(e) if isinstance(x, ast.Constant) and isinstance(x.value, str)]
+        return next((n for n in names if n in {w for v in WANT.values() for w in v}), None)
+    found = {}
+    for m in ast.walk(holder.node):
+        if isinstance(m, ast.BinOp) and isinstance(m.op, ast.Mult):
+            for cosn, other in ((m.left, m.right), (m.right, m.left)):
+                if isinstance(cosn, ast.Call) and call_name(cosn).split(".")[-1] == "cos" and cosn.args:
+                    arg = cosn.args[0]
+                    subs = [x for x in ast.walk(arg) if isinstance(x, ast.BinOp) and isinstance(x.op, ast.Sub)]
+                    if not subs:
+                        continue
+                    harmonic = 2 if any(isinstance(x, ast.Constant) and x.value == 2 for x in ast.walk(arg)) else 1
+                    found[harmonic] = (origin(other), origin(subs[0].right), m)
+    if set(found) != {1, 2}:
+        raise AnalysisError("NDBC: the two harmonics r*cos(n*(dir - alpha)) were not found")
+    for h in (1, 2):
+        r_, a_, node = found[h]
+        if (r_, a_) == WANT[h]:
+            rep.ok("R-C12-6", f"{holder.file}:{node.lineno} {holder.short}", f"harmonic {h}: {r_} * cos({h}(dir - {a_}))", "NDBC pairing")
+        else:
+            rep.fail("R-C12-6", holder.file, (call or node).lineno, fn.qualname, f"harmonic {h}: {r_} * cos({h}(dir - {a_}))",
+                     f"the {'first' if h == 1 else 'second'} harmonic must be {WANT[h][0]} * cos({h}(dir - {WANT[h][1]})): with the two directions "
+                     "exchanged every bin's energy is put at another physical direction (the integral over direction is unchanged, so no "
+                     "variance check notices)")
+
+
+_LOSSY = ("round", "around", "round_", "rint", "floor", "ceil", "trunc", "fix")
+
+
+def _lossy_calls(tree):
+    out = []
+    for c in ast.walk(tree):
+        if isinstance(c, ast.Call):
+            nm = call_name(c).split(".")[-1] if call_name(c) else (c.func.attr if isinstance(c.func, ast.Attribute) else "")
+            if isinstance(c.func, ast.Attribute) and c.func.attr in _LOSSY:
+                nm = c.func.attr
+            if nm in _LOSSY:
+                out.append(c)
+            if isinstance(c.func, ast.Attribute) and c.func.attr == "astype" and c.args and "int" in unparse(c.args[0]):
+                out.append(c)
+    return out
+
+
+def lossless_coordinates(repo, rep):
+    """R-C12-7: the converters move every bin to its physical direction / frequency exactly: no rounding of converted values."""
+    rep.rule("R-C12-7", "no converter rounds or truncates a converted coordinate or density (np.round / rint / floor / astype(int) ...): a rounded "
+                        "direction or frequency moves bins and changes the bin widths the variance is integrated with")
+    # positive control: the detector must recognise the idiom it is armed for
+    if len(_lossy_calls(ast.parse("a = np.round(x * R2D, 2); b = x.round(1); c = x.astype(int)"))) != 3:
+        raise AnalysisError("R-C12-7 self-test: rounding idioms not recognised")
+    n = 0
+    for q in list(NATIVE) + ["wavespectra.input.era5.from_era5", "wavespectra.input.ndbc.from_ndbc", "wavespectra.input.ndbc._construct_spectra"]:
+        try:
+            fi = repo.func(q)
+        except AnalysisError:
+            continue
+        n += 1
+        bad = _lossy_calls(fi.node)
+        if bad:
+            rep.fail("R-C12-7", fi.file, bad[0].lineno, fi.qualname, unparse(bad[0])[:100],
+                     "converted values are rounded: bins no longer sit at their physical direction / frequency, and the converted bin widths differ "
+                     "from the native ones, so the integrated variance changes")
+        else:
+            rep.ok("R-C12-7", f"{fi.file}:{fi.node.lineno} {fi.short}", "no rounding / truncation call", "conversions are exact affine maps")
+    rep.floor("R-C12-7", "converters examined", n, 5)
+
+
+def dispatcher_names(repo, rep):
+    """R-C12-8: the signature sets contain names that are only DIMENSIONS in real files (nfreq, ndir, nbstation, points, station), so the set
+    they are tested against must contain the dataset's dimensions as well as its variables."""
+    rep.rule("R-C12-8", "the name set the dispatcher tests the convention signatures against contains the dataset's dimension names as well as its "
+                        "variable names (several signatures name dimensions that have no coordinate variable)")
+    fi = repo.func("wavespectra.input.dataset.read_dataset")
+    from ..astutil import resolve
+    cands = {}
+    for n in ast.walk(fi.node):
+        if isinstance(n, ast.BinOp) and isinstance(n.op, ast.Sub) and isinstance(n.right, ast.Name) and isinstance(n.left, ast.Name):
+            cands[n.right.id] = cands.get(n.right.id, 0) + 1
+        if isinstance(n, ast.Call) and isinstance(n.func, ast.Attribute) and n.func.attr in ("issubset", "issuperset") and n.args and isinstance(n.args[0], ast.Name):
+            cands[n.args[0].id] = cands.get(n.args[0].id, 0) + 1
+        if isinstance(n, ast.Compare) and len(n.ops) == 1 and isinstance(n.ops[0], (ast.LtE, ast.GtE)) and isinstance(n.left, ast.Name) and isinstance(n.comparators[0], ast.Name):
+            for x in (n.left.id, n.comparators[0].id):
+                cands[x] = cands.get(x, 0) + 1
+    if not cands:
+        raise AnalysisError("read_dataset: signature tests not found")
+    name = max(cands, key=cands.get)
+    defs = [a for a in ast.walk(fi.node) if isinstance(a, ast.Assign) and any(isinstance(t, ast.Name) and t.id == name for t in a.targets)]
+    if len(defs) != 1:
+        raise AnalysisError(f"read_dataset: definition of the tested name set '{name}' not unique")
+    attrs_ = set()
+    stack = [defs[0].value]
+    seen = set()
+    while stack:
+        e = stack.pop()
+        for x in ast.walk(e):
+            if isinstance(x, ast.Attribute):
+                attrs_.add(x.attr)
+            if isinstance(x, ast.Name) and x.id not in seen and x.id not in fi.params:
+                seen.add(x.id)
+                for a in ast.walk(fi.node):
+                    if isinstance(a, ast.Assign) and any(isinstance(t, ast.Name) and t.id == x.id for t in a.targets) and a is not defs[0]:
+                        stack.append(a.value)
+    has_vars = bool(attrs_ & {"variables", "data_vars", "coords", "keys"}) or any(
+        isinstance(c, ast.Call) and call_name(c) in ("set", "list", "frozenset") and c.args and unparse(c.args[0]) == fi.params[0] for c in ast.walk(defs[0].value))
+    has_dims = bool(attrs_ & {"dims", "sizes"})
+    if has_vars and has_dims:
+        rep.ok("R-C12-8", f"{fi.file}:{defs[0].lineno} read_dataset", unparse(defs[0])[:100], "variables and dimensions")
+    else:
+        rep.fail("R-C12-8", fi.file, defs[0].lineno, fi.qualname, unparse(defs[0])[:100],
+                 "the convention signatures name dimensions (nfreq, ndir, nbstation, points, station) that have no coordinate variable in the "
+                 f"model files: a name set built from {'variables' if has_vars else 'dimensions'} only never matches them and the dataset is rejected or "
+                 "mis-identified")
+
+
 def run(repo, rep, tier):
     rep.rule("R-C12-5", "every parameter of the functions behind this property is read (model-native converters): none is accepted and then ignored")
     from .shared import unused_parameters
@@ -437,6 +574,9 @@ def run(repo, rep, tier):
         rep.note(f"typing of the converters stopped after the violation above: {e_}")
     jacobian(repo, rep)
     dispatcher(repo, rep)
+    ndbc_pairing(repo, rep)
+    lossless_coordinates(repo, rep)
+    dispatcher_names(repo, rep)
     rep.trust("native-convention table NATIVE (format documentation / reader docstrings); Python ast; units algebra of sa/units.py")
     rep.assume("WWM SPDIR spans one circle [0, 2pi): a positive unit conversion keeps it in [0, 360)")
     rep.note("not decided: equality of integrated variance native vs converted (numeric); lon/lat time-dependence handling at run time")
